@@ -195,5 +195,8 @@ func (c *twistPoint) Neg(a *twistPoint) {
 	c.x.Set(&a.x)
 	c.y.Neg(&a.y)
 	c.z.Set(&a.z)
-	c.t.SetZero()
+	// t caches z², which negation does not change (it was zeroed here, and
+	// MakeAffine leaves a point with z == 1 alone, so a negated affine point
+	// entered the Miller loop with t == 0)
+	c.t.Set(&a.t)
 }
